@@ -17,7 +17,11 @@
 // about a minute per dot product to see that a floating-point sum of products is invariant under the scaling (measured).
 #include "lp_build.h"
 using namespace soplex; using namespace vph;
-#ifndef NR
+// shape: -DVNR=.. -DVNC=.. (not NR/NC on the command line: lp_build.h uses these names for template parameters)
+#ifdef VNR
+#define NR VNR
+#define NC VNC
+#else
 #define NR 2
 #define NC 2
 #endif
